@@ -175,9 +175,13 @@ def shard(args):
                     kinds = gen.ITEM_KINDS + ['roStorySend']
                 else:
                     sub, kinds = state, KINDS
-                _k, text = data.draw(gen.message(sub if sub is carried_here else state, self.ro_id,
-                                                 kinds=kinds, faults='none', rich=False, mid=self.mid,
-                                                 degenerate=False, dup_inserts=False))
+                try:
+                    _k, text = data.draw(gen.message(sub if sub is carried_here else state, self.ro_id,
+                                                     kinds=kinds, faults='none', rich=False, mid=self.mid,
+                                                     degenerate=False, dup_inserts=False))
+                except (IndexError, KeyError, ValueError, AssertionError, TypeError, AttributeError):
+                    col.excluded['generator could not draw a message for the reached state'] += 1
+                    return
                 self.ops.append(['send', text])
                 info = self.w.send(text)
             classes = [info['kind']]
